@@ -968,50 +968,220 @@ Proof.
   rewrite (run_lines_mono _ _ _ _ _ _ IH Er). exact H.
 Qed.
 
-Lemma parse_file_as_lines E f path st r :
-  q_expand_each_parse (e_quirks E) = false ->
-  parse_file f E path st = Ok r ->
-  run_lines (parse_file f E) E (MATCH_ALL :: lines_of E path) st = Ok r.
+(* ---- states that differ only in the token table behave alike ------------------------------- *)
+(* During a load the token table holds '%' and possibly 'h'; 'h' is written by the Hostname handler
+   (and by _set_tokens) before it is read, so its stale value never matters. *)
+Definition tinv (t : list (Z * str)) : Prop := forall c, c <> 104 -> lookup_c c t = lookup_c c pct_token.
+Definition seq (a b : state) : Prop :=
+  s_opts a = s_opts b /\ s_matching a = s_matching b /\ s_final a = s_final b /\
+  tinv (s_tokens a) /\ tinv (s_tokens b).
+Definition rsim (r1 r2 : res state) : Prop :=
+  match r1, r2 with
+  | Ok a, Ok b => seq a b
+  | Err e1, Err e2 => e1 = e2
+  | _, _ => False
+  end.
+Definition rec_sim (rec : str -> state -> res state) : Prop :=
+  forall p s1 s2, seq s1 s2 -> rsim (rec p s1) (rec p s2).
+
+Lemma lookup_c_update_other {A} k k' (v : A) l : k <> k' -> lookup_c k (update_c k' v l) = lookup_c k l.
 Proof.
-  intros Hq H. destruct f as [|f]; [discriminate|].
+  intros Hne. induction l as [|[k2 v2] r IH]; cbn [update_c lookup_c].
+  - destruct (Z.eqb_spec k k'); [contradiction | reflexivity].
+  - destruct (Z.eqb_spec k' k2) as [->|Hn2]; cbn [lookup_c].
+    + destruct (Z.eqb_spec k k2); [contradiction | reflexivity].
+    + destruct (k =? k2); [reflexivity | exact IH].
+Qed.
+
+Lemma tinv_pct : tinv pct_token.
+Proof. intros c _. reflexivity. Qed.
+
+Lemma tinv_update_h t v : tinv t -> tinv (update_c 104 v t).
+Proof. intros H c Hc. rewrite lookup_c_update_other by exact Hc. apply H. exact Hc. Qed.
+
+Lemma update_h_ext t1 t2 v : tinv t1 -> tinv t2 ->
+  forall c, lookup_c c (update_c 104 v t1) = lookup_c c (update_c 104 v t2).
+Proof.
+  intros H1 H2 c. destruct (Z.eq_dec c 104) as [->|Hne].
+  - rewrite !lookup_c_update_same. reflexivity.
+  - rewrite !lookup_c_update_other by exact Hne. rewrite H1, H2 by exact Hne. reflexivity.
+Qed.
+
+Lemma expand_pct_go_ext t1 t2 : (forall c, lookup_c c t1 = lookup_c c t2) ->
+  forall s k, expand_pct_go t1 s k = expand_pct_go t2 s k.
+Proof.
+  intros Hext s. induction s as [|c r IH]; intros k; [reflexivity|].
+  cbn [expand_pct_go]. destruct k; [apply IH|].
+  destruct (c =? PCT).
+  - destruct r as [|d r']; [reflexivity|]. destruct (d =? NL); [rewrite IH; reflexivity|].
+    rewrite Hext. destruct (lookup_c d t2); [rewrite IH; reflexivity | reflexivity].
+  - rewrite IH. reflexivity.
+Qed.
+
+Lemma expand_val_ext t1 t2 environ s : (forall c, lookup_c c t1 = lookup_c c t2) ->
+  expand_val t1 environ s = expand_val t2 environ s.
+Proof. intros H. unfold expand_val, expand_pct. rewrite (expand_pct_go_ext t1 t2 H). reflexivity. Qed.
+
+Lemma seq_refl_inv s : tinv (s_tokens s) -> seq s s.
+Proof. intros H. repeat split; assumption. Qed.
+
+Lemma rsim_fold {A} (f : state -> A -> res state) :
+  (forall a s1 s2, seq s1 s2 -> rsim (f s1 a) (f s2 a)) ->
+  forall l r1 r2, rsim r1 r2 ->
+  rsim (fold_left (fun acc a => bind acc (fun s => f s a)) l r1)
+       (fold_left (fun acc a => bind acc (fun s => f s a)) l r2).
+Proof.
+  intros Hf l. induction l as [|a l IH]; intros r1 r2 H; [exact H|].
+  cbn [fold_left]. apply IH.
+  destruct r1 as [s1|e1], r2 as [s2|e2]; cbn [bind]; try exact H; try contradiction.
+  apply Hf. exact H.
+Qed.
+
+Definition hsim (r1 r2 : res (state * list str)) : Prop :=
+  match r1, r2 with
+  | Ok (a, x), Ok (b, y) => seq a b /\ x = y
+  | Err e1, Err e2 => e1 = e2
+  | _, _ => False
+  end.
+
+Lemma run_handler_sim rec E k o args st1 st2 :
+  rec_sim rec -> seq st1 st2 ->
+  hsim (run_handler rec E k o args st1) (run_handler rec E k o args st2).
+Proof.
+  intros Hrec Hs. destruct st1 as [os1 m1 t1 f1], st2 as [os2 m2 t2 f2].
+  destruct Hs as (Ho & Hm & Hf & Ht1 & Ht2). cbn [s_opts s_matching s_final s_tokens] in *. subst os2 m2 f2.
+  destruct k; cbn [run_handler s_opts s_matching s_final s_tokens with_matching with_opts];
+    try (destruct (run_setter _ o args os1) as [[os' r']|e]; cbn [bind hsim fst snd]; [|reflexivity];
+         split; [repeat split; assumption | reflexivity]).
+  - (* Host *) split; [repeat split; assumption | reflexivity].
+  - (* Match *)
+    destruct (eval_match E os1 args true f1) as [[m f]|e]; cbn [bind hsim fst snd]; [|reflexivity].
+    split; [repeat split; assumption | reflexivity].
+  - (* Include *)
+    assert (Hfold : rsim
+      (fold_left (fun (acc : res state) (pat : str) => bind acc (fun s1 => bind (glob E pat) (fun paths =>
+         fold_left (fun (acc2 : res state) (p : str) => bind acc2 (rec p)) paths (Ok s1)))) args
+         (Ok (mkState os1 m1 t1 f1)))
+      (fold_left (fun (acc : res state) (pat : str) => bind acc (fun s1 => bind (glob E pat) (fun paths =>
+         fold_left (fun (acc2 : res state) (p : str) => bind acc2 (rec p)) paths (Ok s1)))) args
+         (Ok (mkState os1 m1 t2 f1)))).
+    { apply (rsim_fold (fun s1 pat => bind (glob E pat) (fun paths =>
+         fold_left (fun (acc2 : res state) (p : str) => bind acc2 (rec p)) paths (Ok s1)))).
+      - intros pat s1 s2 Hs. destruct (glob E pat) as [paths|e]; cbn [bind]; [|reflexivity].
+        apply (rsim_fold (fun s p => rec p s)); [|exact Hs].
+        intros p s3 s4 H34. apply Hrec. exact H34.
+      - repeat split; assumption. }
+    destruct (fold_left _ args (Ok (mkState os1 m1 t1 f1))) as [a|e1];
+      destruct (fold_left _ args (Ok (mkState os1 m1 t2 f1))) as [b|e2]; cbn [rsim] in Hfold; try contradiction;
+      cbn [bind hsim]; [|exact Hfold].
+    destruct Hfold as (Ho & Hm & Hf & Ha & Hb). split; [|reflexivity].
+    unfold with_matching. repeat split; assumption.
+  - (* Hostname *)
+    destruct args as [|a rest]; [reflexivity|].
+    destruct (lookup o os1); [cbn [hsim]; split; [repeat split; assumption | reflexivity]|].
+    rewrite (expand_val_ext _ _ (e_environ E) a (update_h_ext t1 t2 (e_host E) Ht1 Ht2)).
+    destruct (expand_val (update_c 104 (e_host E) t2) (e_environ E) a) as [v|e]; cbn [bind hsim]; [|reflexivity].
+    split; [|reflexivity]. repeat split; cbn [s_tokens]; apply tinv_update_h; assumption.
+Qed.
+
+Lemma step_sim rec E raw st1 st2 :
+  rec_sim rec -> seq st1 st2 -> rsim (step rec E raw st1) (step rec E raw st2).
+Proof.
+  intros Hrec Hs. unfold step.
+  destruct (strip raw) as [|c line']; [exact Hs|].
+  destruct (c =? HASH); [exact Hs|].
+  destruct (shlex_split (c :: line')) as [toks|]; [|reflexivity].
+  destruct (split_line (is_cond E) toks) as [[lo args0]|]; [|reflexivity].
+  assert (Hm : s_matching st1 = s_matching st2) by (destruct Hs as (_ & Hm & _); exact Hm).
+  rewrite <- Hm.
+  destruct (negb (s_matching st1) && negb (is_cond E lo)); [exact Hs|].
+  destruct (lookup_handler E lo) as [[o k]|]; [|exact Hs].
+  match goal with |- rsim (match ?A with [] => _ | _ :: _ => _ end) _ => destruct A as [|a0 ar] end; [reflexivity|].
+  pose proof (run_handler_sim rec E k o (a0 :: ar) st1 st2 Hrec Hs) as Hh.
+  destruct (run_handler rec E k o (a0 :: ar) st1) as [[s1 r1]|e1];
+    destruct (run_handler rec E k o (a0 :: ar) st2) as [[s2 r2]|e2]; cbn [hsim] in Hh; try contradiction.
+  - destruct Hh as [Hq ->]. destruct r2; [exact Hq | reflexivity].
+  - exact Hh.
+Qed.
+
+Lemma run_lines_sim rec E lines st1 st2 :
+  rec_sim rec -> seq st1 st2 -> rsim (run_lines rec E lines st1) (run_lines rec E lines st2).
+Proof.
+  intros Hrec. revert st1 st2. induction lines as [|l ls IH]; intros st1 st2 Hs; [exact Hs|].
+  cbn [run_lines]. pose proof (step_sim rec E l st1 st2 Hrec Hs) as H.
+  destruct (step rec E l st1) as [a|e1]; destruct (step rec E l st2) as [b|e2]; cbn [rsim] in H; try contradiction.
+  - apply IH. exact H.
+  - exact H.
+Qed.
+
+Lemma parse_file_sim E f : q_expand_each_parse (e_quirks E) = false -> rec_sim (parse_file f E).
+Proof.
+  intros Hq. induction f as [|f IH]; intros p s1 s2 Hs; [reflexivity|].
+  cbn [parse_file]. destruct (lookup p (e_fs E)) as [lines|]; [|reflexivity].
+  destruct Hs as (Ho & _ & Hf & _ & _). rewrite Ho, Hf, Hq.
+  set (st0 := mkState (s_opts s2) true pct_token (s_final s2)).
+  pose proof (run_lines_sim (parse_file f E) E lines st0 st0 IH (seq_refl_inv st0 tinv_pct)) as H.
+  destruct (run_lines (parse_file f E) E lines st0) as [r|e]; cbn [bind rsim] in *; [exact H | reflexivity].
+Qed.
+
+(* ---- the inlined text ------------------------------------------------------------------------ *)
+
+Lemma inline_one E f path s s' r :
+  q_expand_each_parse (e_quirks E) = false -> seq s s' ->
+  parse_file f E path s = Ok r ->
+  exists r', run_lines (parse_file f E) E (MATCH_ALL :: lines_of E path) s' = Ok r' /\ seq r r'.
+Proof.
+  intros Hq Hs H. destruct f as [|f]; [discriminate|].
   cbn [parse_file] in H. unfold lines_of.
   destruct (lookup path (e_fs E)) as [lines|]; [|discriminate].
   rewrite Hq in H. cbn [run_lines]. rewrite step_match_all.
-  destruct (run_lines (parse_file f E) E lines _) as [s1|e] eqn:Er; cbn [bind] in H; [|discriminate].
-  inversion H; subst. unfold with_matching.
-  apply (run_lines_mono _ _ _ _ _ _ (parse_file_mono E f)). exact Er.
+  set (st0 := mkState (s_opts s) true pct_token (s_final s)) in *.
+  destruct (run_lines (parse_file f E) E lines st0) as [s1|e] eqn:Er; cbn [bind] in H; [|discriminate].
+  inversion H; subst s1.
+  apply (run_lines_mono _ _ _ _ _ _ (parse_file_mono E f)) in Er.
+  assert (H0 : seq st0 (with_matching s' true)).
+  { destruct Hs as (Ho & _ & Hf & _ & Ht'). unfold st0, with_matching. repeat split; cbn; try assumption; try reflexivity; try apply tinv_pct. }
+  pose proof (run_lines_sim (parse_file (S f) E) E lines st0 (with_matching s' true)
+                (parse_file_sim E (S f) Hq) H0) as Hsim.
+  rewrite Er in Hsim. destruct (run_lines (parse_file (S f) E) E lines (with_matching s' true)) as [r'|e];
+    cbn [rsim] in Hsim; [|contradiction].
+  exists r'. split; [reflexivity | exact Hsim].
 Qed.
 
-Lemma inline_inner E f paths st r :
-  q_expand_each_parse (e_quirks E) = false ->
-  fold_left (fun (acc : res state) (p : str) => bind acc (parse_file f E p)) paths (Ok st) = Ok r ->
-  run_lines (parse_file f E) E (inline_files E paths) st = Ok r.
+Lemma inline_inner E f paths s s' r :
+  q_expand_each_parse (e_quirks E) = false -> seq s s' ->
+  fold_left (fun (acc : res state) (p : str) => bind acc (parse_file f E p)) paths (Ok s) = Ok r ->
+  exists r', run_lines (parse_file f E) E (inline_files E paths) s' = Ok r' /\ seq r r'.
 Proof.
-  intros Hq. revert st. induction paths as [|p ps IH]; intros st H.
-  - simpl in H. inversion H; subst. reflexivity.
-  - change (fold_left (fun acc a => bind acc (fun s => (fun s0 p0 => parse_file f E p0 s0) s a)) (p :: ps) (Ok st) = Ok r) in H.
-    rewrite fold_bind_cons in H. destruct (parse_file f E p st) as [s1|e] eqn:Ep; [|discriminate].
-    unfold inline_files. cbn [flat_map]. rewrite run_lines_app.
-    rewrite (parse_file_as_lines _ _ _ _ _ Hq Ep). cbn [bind]. apply IH. exact H.
+  intros Hq. revert s s'. induction paths as [|p ps IH]; intros s s' Hs H.
+  - simpl in H. inversion H; subst. exists s'. split; [reflexivity | exact Hs].
+  - change (fold_left (fun acc a => bind acc (fun s0 => (fun s1 p0 => parse_file f E p0 s1) s0 a)) (p :: ps) (Ok s) = Ok r) in H.
+    rewrite fold_bind_cons in H. destruct (parse_file f E p s) as [s1|e] eqn:Ep; [|discriminate].
+    destruct (inline_one _ _ _ _ _ _ Hq Hs Ep) as (s1' & Hr1 & Hs1).
+    destruct (IH s1 s1' Hs1 H) as (r' & Hr & Hsr).
+    exists r'. split; [|exact Hsr].
+    unfold inline_files in *. cbn [flat_map]. rewrite run_lines_app, Hr1. cbn [bind]. exact Hr.
 Qed.
 
-Lemma inline_outer E f pats pathss st r :
+Lemma inline_outer E f pats pathss s s' r :
   q_expand_each_parse (e_quirks E) = false ->
-  Forall2 (fun pat paths => glob E pat = Ok paths) pats pathss ->
+  Forall2 (fun pat paths => glob E pat = Ok paths) pats pathss -> seq s s' ->
   fold_left (fun (acc : res state) (pat : str) =>
                bind acc (fun s1 => bind (glob E pat) (fun paths =>
                fold_left (fun (acc2 : res state) (p : str) => bind acc2 (parse_file f E p)) paths (Ok s1))))
-            pats (Ok st) = Ok r ->
-  run_lines (parse_file f E) E (flat_map (inline_files E) pathss) st = Ok r.
+            pats (Ok s) = Ok r ->
+  exists r', run_lines (parse_file f E) E (flat_map (inline_files E) pathss) s' = Ok r' /\ seq r r'.
 Proof.
-  intros Hq HF. revert st. induction HF as [|pat paths pats pathss Hg HF IH]; intros st H.
-  - simpl in H. inversion H; subst. reflexivity.
+  intros Hq HF. revert s s'. induction HF as [|pat paths pats pathss Hg HF IH]; intros s s' Hs H.
+  - simpl in H. inversion H; subst. exists s'. split; [reflexivity | exact Hs].
   - rewrite (fold_bind_cons (fun s1 pat => bind (glob E pat) (fun paths =>
                fold_left (fun (acc2 : res state) (p : str) => bind acc2 (parse_file f E p)) paths (Ok s1)))) in H.
     rewrite Hg in H. cbn [bind] in H.
-    destruct (fold_left _ paths (Ok st)) as [s1|e] eqn:Ei; [|discriminate].
-    cbn [flat_map]. rewrite run_lines_app. rewrite (inline_inner _ _ _ _ _ Hq Ei). cbn [bind].
-    apply IH. exact H.
+    destruct (fold_left _ paths (Ok s)) as [s1|e] eqn:Ei; [|discriminate].
+    destruct (inline_inner _ _ _ _ _ _ Hq Hs Ei) as (s1' & Hr1 & Hs1).
+    destruct (IH s1 s1' Hs1 H) as (r' & Hr & Hsr).
+    exists r'. split; [|exact Hsr].
+    cbn [flat_map]. rewrite run_lines_app, Hr1. cbn [bind]. exact Hr.
 Qed.
 
 Lemma lookup_handler_include E : lookup_handler E (z "include") = Some (z "Include", KInclude).
@@ -1023,15 +1193,20 @@ Proof. unfold no_split. destruct (e_client E); vm_compute; reflexivity. Qed.
 Lemma is_cond_include E : is_cond E (z "include") = false.
 Proof. unfold is_cond. destruct (e_client E); vm_compute; reflexivity. Qed.
 
+(* same options, same matching flag, same _final; the token tables may differ in a stale 'h' *)
+Definition same_outcome (a b : state) : Prop :=
+  s_opts a = s_opts b /\ s_matching a = s_matching b /\ s_final a = s_final b.
+
 Theorem include_in_place E f l pats pathss rest st r :
   q_expand_each_parse (e_quirks E) = false ->
-  s_matching st = true ->
+  s_matching st = true -> tinv (s_tokens st) ->
   tokenize E l = Some (z "include", pats) ->
   Forall2 (fun pat paths => glob E pat = Ok paths) pats pathss ->
   run_lines (parse_file f E) E (l :: rest) st = Ok r ->
-  run_lines (parse_file f E) E (flat_map (inline_files E) pathss ++ MATCH_ALL :: rest) st = Ok r.
+  exists r', run_lines (parse_file f E) E (flat_map (inline_files E) pathss ++ MATCH_ALL :: rest) st = Ok r'
+             /\ same_outcome r r'.
 Proof.
-  intros Hq Hm Ht HF H. cbn [run_lines] in H.
+  intros Hq Hm Hti Ht HF H. cbn [run_lines] in H.
   destruct (step (parse_file f E) E l st) as [s1|e] eqn:Es; [|discriminate].
   unfold step in Es. unfold tokenize in Ht.
   destruct (strip l) as [|c line']; [discriminate|].
@@ -1043,13 +1218,32 @@ Proof.
   cbn [run_handler] in Es.
   match type of Es with context [bind ?X _] => destruct X as [s2|e] eqn:Ef end; cbn [bind] in Es; [|discriminate].
   inversion Es; subst s1.
-  rewrite run_lines_app. rewrite (inline_outer _ _ _ _ _ _ Hq HF Ef). cbn [bind run_lines].
-  rewrite step_match_all. exact H.
+  destruct (inline_outer _ _ _ _ _ _ _ Hq HF (seq_refl_inv st Hti) Ef) as (s2' & Hr2 & Hs2).
+  rewrite run_lines_app, Hr2. cbn [bind run_lines]. rewrite step_match_all.
+  assert (H2 : seq (with_matching s2 true) (with_matching s2' true)).
+  { destruct Hs2 as (Ho & _ & Hf & Ha & Hb). unfold with_matching. repeat split; cbn; assumption. }
+  pose proof (run_lines_sim (parse_file f E) E rest _ _ (parse_file_sim E f Hq) H2) as Hsim.
+  rewrite H in Hsim.
+  destruct (run_lines (parse_file f E) E rest (with_matching s2' true)) as [r'|e]; cbn [rsim] in Hsim; [|contradiction].
+  exists r'. split; [reflexivity|]. destruct Hsim as (Ho & Hm' & Hf & _). repeat split; assumption.
 Qed.
 
-(* The code as it is does not have this property: an included file is expanded when its parse ends
-   and again when the including file ends, so "%%h" written in an included file becomes the host
-   name. *)
+(* every state a load goes through satisfies [tinv]: the start state does, and files preserve it *)
+Lemma parse_file_tinv E f path st r :
+  q_expand_each_parse (e_quirks E) = false -> parse_file f E path st = Ok r -> tinv (s_tokens r).
+Proof.
+  intros Hq H. pose proof (parse_file_sim E f Hq path st st) as Hs.
+  destruct f as [|f]; [discriminate|]. cbn [parse_file] in *.
+  destruct (lookup path (e_fs E)) as [lines|]; [|discriminate]. rewrite Hq in *.
+  set (st0 := mkState (s_opts st) true pct_token (s_final st)) in *.
+  pose proof (run_lines_sim (parse_file f E) E lines st0 st0 (parse_file_sim E f Hq) (seq_refl_inv st0 tinv_pct)) as H0.
+  destruct (run_lines (parse_file f E) E lines st0) as [s1|e]; cbn [bind] in H; [|discriminate].
+  inversion H; subst. cbn [rsim] in H0. destruct H0 as (_ & _ & _ & Ht & _). exact Ht.
+Qed.
+
+(* The code before d97dd8e did not have this property: an included file was expanded when its parse
+   ended and again when the including file ended, so "%%h" written in an included file became the
+   host name.  (Statements about the old-variant definitions; they stay true of those.) *)
 Definition refute_env (q : quirks) (fs : list (str * list str)) : env :=
   Build_env true q false false (z "lu") (z "host") [] [] [] [] (z "lh") (z "/home/u") None [] fs.
 Definition fs_included : list (str * list str) :=
@@ -1057,20 +1251,98 @@ Definition fs_included : list (str * list str) :=
 Definition fs_inlined : list (str * list str) :=
   [(z "/main", [z "Match all"; z "IdentityFile a%%h"; z "Match all"]); (z "/inc", [z "IdentityFile a%%h"])].
 
-Theorem include_not_in_place_as_is :
-  load 5 (refute_env impl_quirks fs_included) [] None None [z "/main"]
+Theorem include_not_in_place_old :
+  load 5 (refute_env old_quirks fs_included) [] None None [z "/main"]
   = Ok ([(z "IdentityFile", VList [z "ahost"])], false)
-  /\ load 5 (refute_env impl_quirks fs_inlined) [] None None [z "/main"]
+  /\ load 5 (refute_env old_quirks fs_inlined) [] None None [z "/main"]
   = Ok ([(z "IdentityFile", VList [z "a%h"])], false).
 Proof. split; vm_compute; reflexivity. Qed.
 
-(* Include reads the matches of a glob in directory order, not in sorted order *)
+(* ... and the code as it is now agrees on this input *)
+Example include_in_place_now :
+  load 5 (refute_env impl_quirks fs_included) [] None None [z "/main"]
+  = load 5 (refute_env impl_quirks fs_inlined) [] None None [z "/main"].
+Proof. vm_compute. reflexivity. Qed.
+
+(* Before d9a79c3 Include read the matches of a glob in directory order, not in sorted order *)
 Definition fs_glob : list (str * list str) :=
   [(z "/main", [z "Include /d/*.conf"]); (z "/d/b.conf", [z "Port 2"]); (z "/d/a.conf", [z "Port 1"])].
-Theorem include_glob_order_as_is :
-  load 5 (refute_env impl_quirks fs_glob) [] None None [z "/main"] = Ok ([(z "Port", VInt 2)], false)
+Theorem include_glob_order_old :
+  load 5 (refute_env old_quirks fs_glob) [] None None [z "/main"] = Ok ([(z "Port", VInt 2)], false)
+  /\ load 5 (refute_env impl_quirks fs_glob) [] None None [z "/main"] = Ok ([(z "Port", VInt 1)], false)
   /\ load 5 (refute_env no_quirks fs_glob) [] None None [z "/main"] = Ok ([(z "Port", VInt 1)], false).
-Proof. split; vm_compute; reflexivity. Qed.
+Proof. repeat split; vm_compute; reflexivity. Qed.
+
+(* Between d9a79c3 and d0360eb the matches were sorted as Path objects (component lists compared);
+   glob(3) / ssh compares whole strings.  With directories "conf" and "conf.d" below a wildcard the
+   two orders differ ('.' < '/').  (A statement about the pathsort_quirks variant of the definitions.) *)
+Definition fs_glob2 : list (str * list str) :=
+  [(z "/main", [z "Include /g/*/x.cfg"]); (z "/g/conf/x.cfg", [z "Port 1"]); (z "/g/conf.d/x.cfg", [z "Port 2"])].
+Theorem include_glob_sort_old :
+  load 5 (refute_env pathsort_quirks fs_glob2) [] None None [z "/main"] = Ok ([(z "Port", VInt 1)], false)
+  /\ load 5 (refute_env impl_quirks fs_glob2) [] None None [z "/main"] = Ok ([(z "Port", VInt 2)], false)
+  /\ load 5 (refute_env no_quirks fs_glob2) [] None None [z "/main"] = Ok ([(z "Port", VInt 2)], false).
+Proof. repeat split; vm_compute; reflexivity. Qed.
+
+(* ---- the code as it is reads the matches of a glob in strcmp order --------------------------- *)
+Require Import Coq.Sorting.Sorted Coq.Sorting.Permutation.
+
+Definition str_le (a b : str) : Prop := str_leb a b = true.
+
+Lemma str_leb_total a : forall b, str_leb a b = true \/ str_leb b a = true.
+Proof.
+  induction a as [|x a IH]; intros b; [left; reflexivity|].
+  destruct b as [|y b]; [right; reflexivity|].
+  cbn [str_leb]. destruct (Z.lt_trichotomy x y) as [Hlt|[Heq|Hgt]].
+  - left. apply Z.ltb_lt in Hlt. rewrite Hlt. reflexivity.
+  - subst y. rewrite Z.ltb_irrefl, Z.eqb_refl. cbn [orb andb]. apply IH.
+  - right. apply Z.ltb_lt in Hgt. rewrite Hgt. reflexivity.
+Qed.
+
+Lemma insert_sorted_perm x l : Permutation (insert_sorted x l) (x :: l).
+Proof.
+  induction l as [|y r IH]; cbn [insert_sorted]; [apply Permutation_refl|].
+  destruct (str_leb x y); [apply Permutation_refl|].
+  eapply perm_trans; [apply perm_skip; exact IH | apply perm_swap].
+Qed.
+
+Lemma insert_sorted_hd x y l : str_le y x -> HdRel str_le y l -> HdRel str_le y (insert_sorted x l).
+Proof.
+  intros Hyx Hl. destruct l as [|w r]; cbn [insert_sorted]; [constructor; exact Hyx|].
+  destruct (str_leb x w); constructor; [exact Hyx | inversion Hl; assumption].
+Qed.
+
+Lemma insert_sorted_sorted x l : Sorted str_le l -> Sorted str_le (insert_sorted x l).
+Proof.
+  induction l as [|y r IH]; intros Hs; cbn [insert_sorted]; [repeat constructor|].
+  destruct (str_leb x y) eqn:Exy.
+  - constructor; [exact Hs | constructor; exact Exy].
+  - inversion Hs as [|? ? Hr Hhd]; subst. constructor; [apply IH; exact Hr|].
+    apply insert_sorted_hd; [|exact Hhd].
+    destruct (str_leb_total y x) as [H|H]; [exact H | unfold str_le; congruence].
+Qed.
+
+Lemma sort_paths_sorted l : Sorted str_le (sort_paths l).
+Proof. induction l as [|x l IH]; cbn; [constructor | apply insert_sorted_sorted; exact IH]. Qed.
+
+Lemma sort_paths_perm l : Permutation (sort_paths l) l.
+Proof.
+  induction l as [|x l IH]; cbn; [constructor|].
+  eapply perm_trans; [apply insert_sorted_perm | apply perm_skip; exact IH].
+Qed.
+
+(* Include (code as it is, and what the property asks for): the files an argument selects are
+   exactly the regular files whose path matches the pattern, read in ascending strcmp order *)
+Theorem include_order_is_strcmp E pat paths :
+  q_glob_order (e_quirks E) = GString -> glob E pat = Ok paths ->
+  Sorted str_le paths /\
+  exists cs, resolve_pattern E pat = Some cs /\
+    Permutation paths (filter (fun p => comps_match cs (split_on SLASH (tl p))) (map fst (e_fs E))).
+Proof.
+  intros Hq H. unfold glob in H. destruct (resolve_pattern E pat) as [cs|]; [|discriminate].
+  rewrite Hq in H. inversion H; subst. split; [apply sort_paths_sorted|].
+  exists cs. split; [reflexivity | apply sort_paths_perm].
+Qed.
 
 (* The final pass of the code as it is starts again from the inherited options, so a "Match final"
    block placed before a general block overrides what the first pass had resolved; in ssh the
